@@ -120,8 +120,81 @@ def _child(op, host, n, nice, shield, prof, out_fd):
     os._exit(0)
 
 
+class _OsShim(object):
+    """stands in for `os` inside rebench.denoise while `_exec` runs: nothing is executed"""
+    def __init__(self, record):
+        self.record = record
+        self.environ = {'PATH': '/usr/bin:/bin', 'KEPT': '1'}
+        self.path = os.path
+
+    def execvpe(self, cmd, argv, env):
+        self.record['exec'] = {'cmd': cmd, 'argv': list(argv),
+                               'core_set': env.get('REBENCH_DENOISE_CORE_SET'),
+                               'env_kept': env.get('KEPT') == '1'}
+
+    def __getattr__(self, name):
+        if name in ('getcwd', 'access', 'X_OK', 'sep'):
+            return getattr(os, name)
+        raise AttributeError('os.%s is not available to the sandboxed denoise.py' % name)
+
+
+def _child_exec(argv, lookup_cset, out_fd):
+    os.setgroups([])
+    os.setgid(NOBODY)
+    os.setuid(NOBODY)
+    if os.getuid() == 0 or os.geteuid() == 0:
+        os._exit(3)
+    record = {'commands': []}
+
+    def fake_check_output(cmd, **kw):
+        cmd = list(cmd)
+        record['commands'].append(cmd)
+        if cmd[:1] == ['/usr/bin/which']:
+            if lookup_cset:
+                return (lookup_cset + '\n').encode()
+            raise dn.CalledProcessError(1, cmd)
+        if cmd[1:] == ['--help']:
+            if lookup_cset and cmd[0] in (lookup_cset, os.path.realpath(lookup_cset)):
+                return b'usage'
+            raise FileNotFoundError(2, 'No such file or directory', cmd[0])
+        raise OSError(2, 'not scripted')
+
+    def fake_open(path, mode='r', **kw):
+        raise IOError(13, 'Permission denied', path)
+    shim = _OsShim(record)
+    dn.open = fake_open
+    dn.check_output = fake_check_output
+    dn.os = shim
+    dn.paths._cset_path = None
+    dn.paths._which_path = '/usr/bin/which'
+    if dn.os is not shim or dn.check_output is not fake_check_output:
+        os._exit(4)
+    sys.argv = list(argv)
+    devnull = open(os.devnull, 'w')
+    sys.stdout = devnull
+    try:
+        rc = dn.main_func()
+        record['rc'] = rc
+    except SystemExit as e:
+        record['rc'] = 'exit:%s' % e.code
+    except BaseException as e:  # pylint: disable=broad-except
+        record['crash'] = type(e).__name__ + ': ' + str(e)[:200]
+    os.write(out_fd, json.dumps(record).encode())
+    os._exit(0)
+
+
+def call_exec(argv, lookup_cset=None):
+    """`denoise.py <flags> --num-cores n exec -- cmd…` through the real `main_func` / `_exec` in the
+    sandbox; returns what would have been handed to `os.execvpe`"""
+    return _fork(lambda w: _child_exec(argv, lookup_cset, w))
+
+
 def call(op, host, n, nice=False, shield=False, prof=False):
     """run `_minimize_noise` / `_restore_standard_settings` of the real denoise.py in the sandbox"""
+    return _fork(lambda w: _child(op, host, n, nice, shield, prof, w))
+
+
+def _fork(child_fn):
     if os.getuid() != 0:
         raise lib.InfraError('expected to run as root (to drop privileges in the child)')
     r, w = os.pipe()
@@ -131,7 +204,7 @@ def call(op, host, n, nice=False, shield=False, prof=False):
     if pid == 0:
         try:
             os.close(r)
-            _child(op, host, n, nice, shield, prof, w)
+            child_fn(w)
         except BaseException:  # pylint: disable=broad-except
             import traceback
             traceback.print_exc()
